@@ -27,6 +27,9 @@ func init() {
 			{ID: "C05.R6", Text: "shutdown: whenever Checkpoint.Type == auto, Stream.Save precedes Stream.Close on every path of the function that closes the stream through the Stream interface", Run: c05r6},
 			{ID: "C05.R7", Text: "saves are serialised: the Metadata.Save call is dominated by a blocking Mutex.Lock whose Unlock is deferred immediately", Run: c05r7},
 			{ID: "C05.R9", Text: "what is stored is what was settled: a tracked position (sequence number and snapshot range) is never changed in place after it was acknowledged — markers and offsets are replaced, never mutated (same rule as C06.R3)", Run: c06r3},
+			{ID: "C05.R10", Text: "the dirty marks and the dump range over a faithful map (same rule as C04.R9)", Run: wrapperFaithful},
+			{ID: "C05.R11", Text: "settled progress is tracked and marked: an acknowledgement and every absorbed non-document event move the position exactly once with dirty=true (same rule as C04.R10)", Run: func(c *Ctx, id string) { ackMoves(c, id); absorbMoves(c, id) }},
+			{ID: "C05.R12", Text: "the dump and the dirty-set copy cover every vBucket: every loop over a concurrent map runs to completion: the Range callback returns true on every path (frozen exception: markAbsentInstances stops at the error it returns)", Run: rangeComplete("stream.checkpoint).Save", "couchbase.cbMetadata)", "metadata.")},
 			{ID: "C05.R8", Text: "mark/clear atomicity: the sites that mark the dirty state and the site that clears it hold a common mutex", Run: c05r8},
 		},
 	})
